@@ -703,6 +703,24 @@ class StrLang:
                     table = union(complement(present), at0)
                 if table is not None:
                     return table
+            if isinstance(a, ast.Call) and isinstance(a.func, ast.Name) and a.func.id == "len" and len(a.args) == 1 and isinstance(b, ast.Constant) and isinstance(b.value, int) and not isinstance(b.value, bool) and 0 <= b.value <= 8 and not (b.value == 0 and isinstance(o, (ast.Eq, ast.NotEq, ast.Gt))):
+                # len(s) <op> n: the strings of the lengths that satisfy it (0 .. n, or everything longer)
+                import operator as _o2
+
+                cmpf = {ast.Eq: _o2.eq, ast.NotEq: _o2.ne, ast.Lt: _o2.lt, ast.LtE: _o2.le, ast.Gt: _o2.gt, ast.GtE: _o2.ge}.get(type(o))
+                if cmpf is not None:
+                    n_ = b.value
+                    any1 = L.sym(self.alpha.all)
+                    exact = [L.EPS]
+                    for _ in range(n_ + 1):
+                        exact.append(minimise(L.concat(exact[-1], any1)))
+                    lang = L.EMPTY
+                    for k_ in range(n_ + 2):
+                        if cmpf(k_, n_):
+                            # lengths 0 .. n+1 individually; n+1 stands for "n+1 or more" when the relation keeps holding
+                            piece = exact[k_] if k_ <= n_ else minimise(L.concat(exact[n_ + 1], L.SIGMA_STAR))
+                            lang = minimise(union(lang, piece))
+                    return self.lift(lang, self._view_of(a.args[0], views))
             if isinstance(a, ast.Call) and isinstance(a.func, ast.Name) and a.func.id == "len" and isinstance(b, ast.Constant) and b.value == 0 and isinstance(o, (ast.Eq, ast.NotEq, ast.Gt)):
                 r = self.lift(L.EPS, self._view_of(a.args[0], views))
                 return r if isinstance(o, ast.Eq) else complement(r)
